@@ -193,6 +193,14 @@ type Conn struct {
 func (c *Conn) LocalAddr() net.Addr  { return c.local }
 func (c *Conn) RemoteAddr() net.Addr { return c.remote }
 
+// ClosedByClientOnly: the client closed the connection (when), and the server
+// side never reset or closed it.
+func (c *Conn) ClosedByClientOnly() (time.Duration, bool) {
+	c.mu.Lock()
+	defer c.mu.Unlock()
+	return c.ClosedAt, c.closed && !c.inEOF && !c.inRST
+}
+
 // SetWriteStall: while on, the peer does not read and its socket buffer is
 // full: writes block until their deadline (or until the stall ends).
 func (c *Conn) SetWriteStall(on bool) {
